@@ -53,10 +53,20 @@
 (* EncryptedKey elements carrying an Id (inside the element or standing    *)
 (* behind it in the enclosing element: self reference, 2-cycle, chain,     *)
 (* dangling, repeated Id).                                                 *)
+(*                                                                         *)
+(* Round 6 (fixes/XmlEnc-f.md) adds the dimension HOW THE ENCRYPTER VALUE  *)
+(* WAS OBTAINED AND CONFIGURED: an RSA encrypter is a value returned by a   *)
+(* constructor (OAEP, OAEP_SHA256, OAEP_SHA512, PKCS1v15) whose exported    *)
+(* fields DigestMethod and BlockCipher may then be reassigned (record Enc,  *)
+(* family "enc"); Encrypt reads these fields at five sites (table EncSites) *)
+(* and the required design reads, at every site, the field of the value    *)
+(* that is encrypting - never what the constructor was given (named        *)
+(* deviation CtorCaptured).  Concurrent decryptions over the shared        *)
+(* decrypter registry are module XmlEncConc.                               *)
 (***************************************************************************)
 EXTENDS Integers, Sequences, FiniteSets, TLC, Json
 
-CONSTANTS Family,   \* "C10q" | "C10t" | "C11q" | "C11t"
+CONSTANTS Family,   \* "C10q" | "C10t" | "C11q" | "C11t" | "C11dev" | "C10dev" (refutation runs)
           Dev       \* deviations of the implementation being predicted (cfg: Dev <- DevPinned)
 
 (****************************** algorithm table ****************************)
@@ -127,6 +137,12 @@ W3C(a) == CASE a = "aes128-cbc"    -> [mode |-> "cbc", cipher |-> "aes",  key |-
 \*                            the rest into the etree path //EncryptedKey[@Id='...'] (FindElement panics on a path whose filter has
 \*                            an apostrophe or an opening bracket) and decrypts the element found, with the same key, without
 \*                            remembering where it has been.  "ignored" in every tree.
+\* CtorCaptured               pubkey.go:32-98 RSA.Encrypt reads e.BlockCipher and e.DigestMethod - the exported fields of the value it is
+\*                            called on, which the constructors' documentation invites callers to reassign.  A set of pairs
+\*                            <<constructor, site>> (sites: table EncSites): at that site the value returned by that constructor uses
+\*                            what the CONSTRUCTOR was given (a closure over its argument, a copy made at construction) instead of
+\*                            the field of the value that is encrypting.  {} in every tree: pubkey.go:44, :69-72, :73-85, :93, :98 and
+\*                            the keyEncrypter closures (:190, :207, :224: e.DigestMethod.Hash() of the value handed in) read the fields.
 DevNone ==
   [StripOffByOne |-> FALSE, AcceptOversizePadding |-> FALSE, DesSingleKey |-> FALSE, DecIvFixed16 |-> FALSE,
    NoAlignCheck |-> FALSE, GcmPads |-> FALSE, GcmNonceShadowed |-> FALSE, GcmSealsZeros |-> FALSE,
@@ -134,7 +150,7 @@ DevNone ==
    DigestEmit |-> "w3c", DigestAccept |-> {"w3c"}, MgfFollowsDigest |-> FALSE, Oaep11NoMgf |-> FALSE,
    NoKeyCompletenessCheck |-> FALSE, Oaep11MgfIsDigest |-> FALSE, PrefixBound |-> {},
    AbsentDigestKeepsConfigured |-> FALSE, OaepParamsIgnored |-> FALSE, KeyRefusal |-> {}, ValidatesKey |-> FALSE,
-   UncheckedPrecomputed |-> FALSE, MgfErrorSlicesIdentifier |-> FALSE, RetrievalMethod |-> "ignored"]
+   UncheckedPrecomputed |-> FALSE, MgfErrorSlicesIdentifier |-> FALSE, RetrievalMethod |-> "ignored", CtorCaptured |-> {}]
 DevPinned ==
   [StripOffByOne |-> TRUE, AcceptOversizePadding |-> TRUE, DesSingleKey |-> TRUE, DecIvFixed16 |-> TRUE,
    NoAlignCheck |-> TRUE, GcmPads |-> TRUE, GcmNonceShadowed |-> TRUE, GcmSealsZeros |-> TRUE,
@@ -142,7 +158,7 @@ DevPinned ==
    DigestEmit |-> "pkg", DigestAccept |-> {"pkg"}, MgfFollowsDigest |-> TRUE, Oaep11NoMgf |-> TRUE,
    NoKeyCompletenessCheck |-> TRUE, Oaep11MgfIsDigest |-> FALSE, PrefixBound |-> {},
    AbsentDigestKeepsConfigured |-> FALSE, OaepParamsIgnored |-> TRUE, KeyRefusal |-> {}, ValidatesKey |-> FALSE,
-   UncheckedPrecomputed |-> TRUE, MgfErrorSlicesIdentifier |-> FALSE, RetrievalMethod |-> "ignored"]
+   UncheckedPrecomputed |-> TRUE, MgfErrorSlicesIdentifier |-> FALSE, RetrievalMethod |-> "ignored", CtorCaptured |-> {}]
 \* the tree with the patches of /verif/fixes/C10-*.patch, C11-*.patch, C11b-*.patch applied
 DevFixed ==
   [StripOffByOne |-> FALSE, AcceptOversizePadding |-> TRUE, DesSingleKey |-> FALSE, DecIvFixed16 |-> FALSE,
@@ -151,12 +167,15 @@ DevFixed ==
    DigestEmit |-> "w3c", DigestAccept |-> {"w3c", "pkg"}, MgfFollowsDigest |-> TRUE, Oaep11NoMgf |-> FALSE,
    NoKeyCompletenessCheck |-> FALSE, Oaep11MgfIsDigest |-> TRUE, PrefixBound |-> {},
    AbsentDigestKeepsConfigured |-> FALSE, OaepParamsIgnored |-> TRUE, KeyRefusal |-> {}, ValidatesKey |-> FALSE,
-   UncheckedPrecomputed |-> FALSE, MgfErrorSlicesIdentifier |-> FALSE, RetrievalMethod |-> "ignored"]
+   UncheckedPrecomputed |-> FALSE, MgfErrorSlicesIdentifier |-> FALSE, RetrievalMethod |-> "ignored", CtorCaptured |-> {}]
 \* The deviations the required design is run with: none.  XmlEnc_C11dev.cfg replaces ReqDev by DevSeeded5 - the two
 \* behaviours of round 5 switched on - and TLC must then REFUTE Total (the check breaks when it does not): the two new
 \* dimensions are not vacuous.
 ReqDev == DevNone
 DevSeeded5 == [DevNone EXCEPT !.MgfErrorSlicesIdentifier = TRUE, !.RetrievalMethod = "xpath"]
+\* round 6: the xmlenc11 constructors folded into a helper whose key-wrapping closure uses the helper's argument
+\* (XmlEnc_C10dev.cfg, phase enc-deviation-refuted of the thorough tier: TLC must refute RoundTrip and WrapsAsAnnounced)
+DevSeeded6 == [DevNone EXCEPT !.CtorCaptured = {<<"OAEP_SHA256", "wrap-digest">>, <<"OAEP_SHA512", "wrap-digest">>}]
 
 (* implementation parameters under a deviation record d *)
 KeySize(d, a) == IF a = "tripledes-cbc" /\ d.DesSingleKey THEN 8 ELSE W3C(a).key
@@ -484,6 +503,35 @@ KtCases == {[kt |-> "direct", dm |-> "none"]}
            \cup {[kt |-> "rsa-oaep11", dm |-> h] : h \in {"sha256", "sha512"}} \* OAEP_SHA256(), OAEP_SHA512()
            \cup {[kt |-> "rsa-1_5", dm |-> "none"]}                            \* PKCS1v15()
 PLens(a) == 0 .. (4 * W3C(a).block + 1)
+\* ---- the encrypter as a VALUE (round 6).  The package offers its RSA key transports as values: a constructor returns an
+\* RSA value "ready to use" whose exported fields BlockCipher and DigestMethod may be reassigned ("You can specify other
+\* ciphers and digest methods by assigning to BlockCipher or DigestMethod", pubkey.go:179-183, :196-199, :213-216); a
+\* BlockCipher value is an Encrypter by itself (direct key).
+\*   ctor  : "OAEP" | "OAEP_SHA256" | "OAEP_SHA512" | "PKCS1v15" | "none" (a BlockCipher value used directly)
+\*   setdm : "asis" (DigestMethod left as constructed) | the digest assigned to the field afterwards
+\*   setbc : "asis" (BlockCipher left as constructed: AES-256-CBC) | the block cipher assigned afterwards
+Ctors == {"OAEP", "OAEP_SHA256", "OAEP_SHA512", "PKCS1v15"}
+CtorAlg(k) == CASE k = "OAEP" -> "rsa-oaep-mgf1p" [] k \in {"OAEP_SHA256", "OAEP_SHA512"} -> "rsa-oaep11"
+                [] k = "PKCS1v15" -> "rsa-1_5" [] OTHER -> "direct"
+CtorDm(k) == CASE k \in {"OAEP", "OAEP_SHA256"} -> "sha256" [] k = "OAEP_SHA512" -> "sha512" [] OTHER -> "none"   \* pubkey.go:187, :204, :221, :238
+CtorBc == "aes256-cbc"                                                                                        \* pubkey.go:186, :203, :220, :237
+Enc(k, sd, sb) == [ctor |-> k, setdm |-> sd, setbc |-> sb]
+NoEnc == Enc("none", "asis", "asis")
+\* the fields of the value when Encrypt is called on it
+EncDm(e) == IF e.setdm = "asis" THEN CtorDm(e.ctor) ELSE e.setdm
+EncBc(e) == IF e.setbc = "asis" THEN CtorBc ELSE e.setbc
+\* the sites at which RSA.Encrypt reads a field: pubkey.go:44 e.BlockCipher.KeySize() (size of the session key), :69-72
+\* e.DigestMethod -> ds:DigestMethod, :73-85 e.DigestMethod -> xenc11:MGF, :93 keyEncrypter(e, ...) -> e.DigestMethod.Hash()
+\* (OAEP hash and, crypto/rsa having one hash parameter, the MGF1 hash), :98 e.BlockCipher.Encrypt
+EncSites == {"keysize", "dm-element", "mgf-element", "wrap-digest", "data-cipher"}
+\* how the families other than "enc" obtain the encrypter of a combination (harness: c10PkgEncrypter builds it from this)
+StdEnc(kt, dm, a) == CASE kt = "rsa-oaep-mgf1p" -> Enc("OAEP", dm, a)
+                       [] kt = "rsa-oaep11"     -> IF dm = "sha512" THEN Enc("OAEP_SHA512", "asis", a)
+                                                   ELSE Enc("OAEP_SHA256", IF dm = "sha256" THEN "asis" ELSE dm, a)
+                       [] kt = "rsa-1_5"        -> Enc("PKCS1v15", "asis", a)
+                       [] OTHER                 -> NoEnc
+\* XML-Enc 1.1 5.5.2 names MGF1 over SHA-1 / 224 / 256 / 384 / 512: of the digests offered, RIPEMD-160 has no MGF identifier
+MgfDigests == {"sha1", "sha256", "sha512"}
 \* fam "base": the three directions, everything in the package's own lexical form, the recipient's certificate embedded.
 \* lex : lexical form in which the independent producer writes its element;  ki : X509Data class it embeds
 \* mgfd: the digest of the MGF1 the key is wrapped with (rsa-oaep-mgf1p: SHA-1 by definition; xmlenc11 rsa-oaep: named by
@@ -498,7 +546,7 @@ OptStd(kt) == [dm |-> IF Oaep(kt) THEN "named" ELSE "absent", mgf |-> IF kt = "r
 StdMgf(kt, dm) == IF kt = "rsa-oaep11" THEN dm ELSE IF kt = "rsa-oaep-mgf1p" THEN "sha1" ELSE "none"
 Case(fam, a, k, n, nn, l, x) ==
   [fam |-> fam, bc |-> a, kt |-> k.kt, dm |-> k.dm, plen |-> n, nonce |-> nn, lex |-> l, ki |-> x,
-   mgfd |-> StdMgf(k.kt, k.dm), opt |-> OptStd(k.kt), kv |-> "std"]
+   mgfd |-> StdMgf(k.kt, k.dm), opt |-> OptStd(k.kt), kv |-> "std", enc |-> StdEnc(k.kt, k.dm, a)]
 C10Cases == { Case("base", a, k, n, nn, LexPkg, "sp") : a \in BCs, k \in KtCases, n \in 0..65, nn \in {"supplied", "generated"} }
 \* fam "lex": direction ref2pkg only.  The independent producer writes the same ciphertexts in every lexical form and
 \* with the key information conformant producers embed: the recipient's certificate, its X509IssuerSerial followed by
@@ -535,7 +583,17 @@ KvLens == IF Thorough THEN {0, 1, 7, 8, 9, 16, 17, 33} ELSE {0, 17}
 C10Kv == UNION { { [Case("keyval", a, k, n, "supplied", LexPkg, "sp") EXCEPT !.kv = v] :
                    k \in {[kt |-> "direct", dm |-> "none"], [kt |-> "rsa-oaep-mgf1p", dm |-> "sha1"]}, n \in KvLens, v \in KeyClasses(a) }
                  : a \in BCs }
-C10Set == { x \in C10Cases : x.plen \in PLens(x.bc) } \cup C10Lex \cup C10Opt \cup C10Kv
+\* fam "enc" (round 6): directions self and pkg2ref (the independent producer has no constructors).  Every constructor x
+\* DigestMethod left as constructed / reassigned to every digest x BlockCipher left as constructed / reassigned to every
+\* block cipher.  The combination encrypted with is the one the FIELDS name when Encrypt is called.
+EncLens == IF Thorough THEN {0, 17, 33} ELSE {17}
+EncNonces == IF Thorough THEN {"supplied", "generated"} ELSE {"supplied"}
+EncVals == { Enc(k, sd, sb) : k \in Ctors, sd \in {"asis"} \cup Digests, sb \in {"asis"} \cup BCs }
+C10Enc == { [Case("enc", EncBc(e), [kt |-> CtorAlg(e.ctor), dm |-> EncDm(e)], n, nn, LexPkg, "sp") EXCEPT !.enc = e] :
+            e \in EncVals, n \in EncLens, nn \in EncNonces }
+\* (Family "C10dev": XmlEnc_C10dev.cfg runs family "enc" alone with the deviation of round 6 switched on in the required design)
+C10Set == IF Family = "C10dev" THEN { x \in C10Enc : x.enc.setbc \in {"asis", "aes128-cbc"} }
+          ELSE { x \in C10Cases : x.plen \in PLens(x.bc) } \cup C10Lex \cup C10Opt \cup C10Kv \cup C10Enc
 
 \* ---- C11: elements an attacker can build.  Built with W3C parameters unless said otherwise.
 \* data key "K" of length klen; genuine CBC body of n bytes whose final plaintext byte is p
@@ -799,14 +857,16 @@ C11DevSet == WithLex({ x \in F4g : x.via = "ek" /\ x.el.dm = Dm("sha256", "w3c")
 C11Set == IF Family = "C11dev" THEN C11DevSet
           ELSE WithLex(C11Base \cup C11New \cup C11Round5, LexPkg) \cup UNION { WithLex(LexBase, l) : l \in LexForms \ {LexPkg} }
 
-IsC10 == Family \in {"C10q", "C10t"}
+IsC10 == Family \in {"C10q", "C10t", "C10dev"}
 \* the document the element handed to Decrypt stands in, as far as it holds EncryptedKey elements: document order
 RECURSIVE Pre(_), PreSeq(_)
 Pre(e) == <<e>> \o PreSeq(e.eks)
 PreSeq(sq) == IF sq = <<>> THEN <<>> ELSE Pre(Head(sq)) \o PreSeq(Tail(sq))
 DocEKs(x) == (IF x.el.em \in KTs THEN Pre(x.el) ELSE PreSeq(x.el.eks)) \o PreSeq(x.sibs)
 \* C10 families run in the three directions, or only independent implementation -> package
-ThreeWayCase(x) == x.fam = "base" \/ (x.fam = "keyval" /\ x.kt = "direct")
+ThreeWayCase(x) == x.fam \in {"base", "enc"} \/ (x.fam = "keyval" /\ x.kt = "direct")
+\* ... and family "enc" ends behind pkg2ref: it varies the package's encrypter only
+HasRef(x) == x.fam # "enc"
 
 (******************************** variables ********************************)
 VARIABLES impl,     \* "w3c" (required design) | "code" (prediction under Dev: the pinned tree) |
@@ -851,7 +911,7 @@ Init == /\ impl \in {"w3c", "code", "fixed"}
         \* tree is made once per case, in the package's form
         /\ (c.lex # LexPkg => impl # "code")
         \* the families of round 4 are predicted for the tree with the fixes only
-        /\ (c.fam \in {"opt", "keyval", "keyvalue", "ekopt", "ekmgf", "keyinfo"} => impl # "code")
+        /\ (c.fam \in {"opt", "keyval", "keyvalue", "ekopt", "ekmgf", "keyinfo", "enc"} => impl # "code")
         /\ (~IsC10 /\ c.key.t = "rsa" /\ (c.key.shape \in NewShapes \/ c.key.id = "mp3") => impl # "code")
         /\ buf = NoBuf /\ ret = NoRet /\ elP = NoEl /\ elR = NoEl
         /\ out = [self |-> NoOut, pkg2ref |-> NoOut, ref2pkg |-> NoOut, dec |-> NoOut]
@@ -859,18 +919,31 @@ Init == /\ impl \in {"w3c", "code", "fixed"}
 (**************************** Encrypt, as coded ****************************)
 \* pubkey.go:32-98 RSA.Encrypt : generate a key of BlockCipher.KeySize(), wrap it, describe it.
 \* A direct key is the caller's: "a key of the right size" = the W3C size of the algorithm.
-EncHash == c.dm
-EncMgf(d) == IF c.kt = "rsa-oaep-mgf1p" THEN (IF d.MgfFollowsDigest THEN c.dm ELSE "sha1") ELSE c.mgfd
 \* the independent producer (phases other than encP) has the choice of c.opt; the package writes what pubkey.go:69-85 writes
 ByRef == phase # "encP"
+\* The package's Encrypt is called on the value c.enc: at every site it reads a field of that value - c.dm = EncDm(c.enc),
+\* c.bc = EncBc(c.enc) - unless the implementation captured, at that site, what the constructor was given (CtorCaptured).
+\* The independent producer has no constructors: it uses the parameters of the case.
+Captured(d, site) == phase = "encP" /\ <<c.enc.ctor, site>> \in d.CtorCaptured
+PDm(d, site) == IF Captured(d, site) THEN CtorDm(c.enc.ctor) ELSE c.dm
+PBc(d, site) == IF Captured(d, site) THEN CtorBc ELSE c.bc
+EncHash(d) == PDm(d, "wrap-digest")
+\* rsa-oaep-mgf1p: MGF1 with SHA-1 by definition; xmlenc11: the independent producer wraps with the MGF1 of the case, the
+\* package with crypto/rsa EncryptOAEP, whose one hash parameter is the OAEP hash and the MGF1 hash
+EncMgf(d) == IF c.kt = "rsa-oaep-mgf1p" THEN (IF d.MgfFollowsDigest THEN EncHash(d) ELSE "sha1")
+             ELSE IF ByRef THEN c.mgfd ELSE EncHash(d)
 EncEK(d) ==
-  LET payload == BytesV(KeySize(d, c.bc), "K", kv.shape) IN
+  LET payload == BytesV(kv.len, "K", kv.shape)
+      dmel == PDm(d, "dm-element") IN
   [El(c.kt, "ok", 256,
       IF c.kt = "rsa-1_5" THEN Wrap("pkcs1", "none", "none", "sp", payload)
-                          ELSE [Wrap("oaep", EncHash, EncMgf(d), "sp", payload)
+                          ELSE [Wrap("oaep", EncHash(d), EncMgf(d), "sp", payload)
                                   EXCEPT !.label = IF ByRef /\ c.opt.oaepp = "label" THEN "L" ELSE "none"],
-      IF c.kt = "rsa-1_5" \/ (ByRef /\ c.opt.dm = "absent") THEN NoDm ELSE Dm(c.dm, d.DigestEmit),
-      IF c.kt = "rsa-oaep11" /\ ~d.Oaep11NoMgf /\ ~(ByRef /\ c.opt.mgf = "absent") THEN c.mgfd ELSE "absent",
+      \* pubkey.go:69-72  if e.DigestMethod != nil: also under rsa-1_5 when the field of a PKCS1v15() value has been assigned
+      IF ByRef THEN (IF c.kt = "rsa-1_5" \/ c.opt.dm = "absent" THEN NoDm ELSE Dm(c.dm, d.DigestEmit))
+               ELSE (IF dmel = "none" THEN NoDm ELSE Dm(dmel, d.DigestEmit)),
+      IF c.kt = "rsa-oaep11" /\ ~d.Oaep11NoMgf /\ ~(ByRef /\ c.opt.mgf = "absent")
+        THEN (IF ByRef THEN c.mgfd ELSE PDm(d, "mgf-element")) ELSE "absent",
       IF phase = "encP" THEN "sp" ELSE c.ki, <<>>)
      EXCEPT !.oaepp = IF ByRef THEN c.opt.oaepp ELSE "absent"]
 \* the key: the caller's (direct), or drawn by the producer - the package reads RandReader (pubkey.go:44-48), the
@@ -878,16 +951,22 @@ EncEK(d) ==
 EncKey ==
   /\ pc = "EncKey"
   /\ kv' = IF c.kt = "direct" THEN KeyShape("bytes", W3C(c.bc).key, "K", c.kv)
-           ELSE KeyShape("bytes", KeySize(ED, c.bc), "K", IF ByRef THEN c.kv ELSE "std")
+           \* pubkey.go:44  make([]byte, e.BlockCipher.KeySize())
+           ELSE KeyShape("bytes", KeySize(ED, PBc(ED, "keysize")), "K", IF ByRef THEN c.kv ELSE "std")
   /\ pc' = "EncBlock"
   /\ UNCHANGED <<impl, c, phase, frames, buf, ret, elP, elR, out>>
 
 \* cbc.go:34-83 / gcm.go:33-87
 EncResult(d) ==
-  LET a == c.bc w == W3C(a) eks == IF c.kt = "direct" THEN <<>> ELSE <<EncEK(d)>>
+  LET a == PBc(d, "data-cipher")        \* pubkey.go:98  e.BlockCipher.Encrypt(key, plaintext, nonce)
+      w == W3C(a) eks == IF c.kt = "direct" THEN <<>> ELSE <<EncEK(d)>>
       padded == c.plen + PadLen(c.plen, w.block)
       Data(cvlen, ct) == [DataEl(a, "ok", cvlen, ct, eks) EXCEPT !.ks = ByRef /\ c.opt.ks] IN
-  IF kv.len # KeySize(d, a) THEN [k |-> "error", why |-> "KeyLength", el |-> NoEl]
+  \* pubkey.go:73-80  xmlenc11 rsa-oaep states its mask generation function: a digest without MGF1 identifier cannot be
+  \* announced, Encrypt refuses (before the key is wrapped)
+  IF ~ByRef /\ c.kt = "rsa-oaep11" /\ ~d.Oaep11NoMgf /\ PDm(d, "mgf-element") \notin MgfDigests
+    THEN [k |-> "error", why |-> "MgfNotNameable", el |-> NoEl]
+  ELSE IF kv.len # KeySize(d, a) THEN [k |-> "error", why |-> "KeyLength", el |-> NoEl]
   \* cbc.go:44 / gcm.go:46  block, err := e.cipher(key)
   ELSE IF Refuses(d, a, kv.shape) THEN [k |-> "error", why |-> "CipherKey", el |-> NoEl]
   ELSE IF w.mode = "cbc"
@@ -916,7 +995,8 @@ EncBlock ==
                    /\ UNCHANGED <<elR, out>>
               ELSE /\ out' = [out EXCEPT !.self = [k |-> r.k, why |-> "Encrypt:" \o r.why, nondet |-> FALSE],
                                          !.pkg2ref = [k |-> r.k, why |-> "Encrypt:" \o r.why, nondet |-> FALSE]]
-                   /\ phase' = "encR" /\ pc' = "EncKey" /\ UNCHANGED <<elP, elR, frames, kv>>
+                   /\ phase' = (IF HasRef(c) THEN "encR" ELSE "done") /\ pc' = (IF HasRef(c) THEN "EncKey" ELSE "done")
+                   /\ UNCHANGED <<elP, elR, frames, kv>>
        ELSE /\ elR' = r.el /\ phase' = "ref2pkg" /\ pc' = "FindMethod" /\ frames' = <<r.el>> /\ kv' = C10Key
             /\ UNCHANGED <<elP, out>>
   /\ UNCHANGED <<impl, c, buf, ret>>
@@ -983,7 +1063,8 @@ Return ==
             /\ ret' = NoRet /\ buf' = NoBuf
             /\ CASE phase = "self"    -> /\ out' = [out EXCEPT !.self = o] /\ phase' = "pkg2ref" /\ pc' = "FindMethod"
                                          /\ frames' = <<elP>> /\ kv' = C10Key /\ UNCHANGED <<elP, elR>>
-                 [] phase = "pkg2ref" -> /\ out' = [out EXCEPT !.pkg2ref = o] /\ phase' = "encR" /\ pc' = "EncKey"
+                 [] phase = "pkg2ref" -> /\ out' = [out EXCEPT !.pkg2ref = o]
+                                         /\ phase' = (IF HasRef(c) THEN "encR" ELSE "done") /\ pc' = (IF HasRef(c) THEN "EncKey" ELSE "done")
                                          /\ frames' = <<>> /\ UNCHANGED <<kv, elP, elR>>
                  [] phase = "ref2pkg" -> /\ out' = [out EXCEPT !.ref2pkg = o] /\ phase' = "done" /\ pc' = "done"
                                          /\ frames' = <<>> /\ UNCHANGED <<kv, elP, elR>>
@@ -1173,13 +1254,40 @@ Required == impl = "w3c"      \* the run of the required design
 \* (c.opt).  "Every key of the right size": the class does not depend on the value of the key (c.kv).
 \* Left open (DontCare; the quantifier names the key transports without OAEP label, and what the package offers for xmlenc11
 \* rsa-oaep is MGF1 over the DigestMethod's hash): a non-empty OAEP label; xmlenc11 rsa-oaep with another MGF1 digest.
-C10ClassOf(x) == IF x.opt.oaepp = "label" \/ (x.kt = "rsa-oaep11" /\ x.mgfd # x.dm) THEN "DontCare" ELSE "MustAccept"
+\* "Every ... key-transport algorithm the xmlenc package offers for encryption": the package offers them as VALUES - what a
+\* constructor returns, with BlockCipher and DigestMethod as the caller has assigned them.  The combination a call of Encrypt
+\* stands for is the one the fields name at that moment (x.bc, x.kt, x.dm), however the value came about (x.enc): MustAccept
+\* for every constructor and every assignment.  Left open: xmlenc11 rsa-oaep with RIPEMD-160 - XML-Enc 1.1 has no MGF1
+\* identifier for it, the combination cannot be announced and is not among the listed ones (the tree with the fixes refuses
+\* to encrypt).
+C10ClassOf(x) == IF x.opt.oaepp = "label" \/ (x.kt = "rsa-oaep11" /\ (x.mgfd # x.dm \/ x.dm \notin MgfDigests)) THEN "DontCare" ELSE "MustAccept"
 C10Class == C10ClassOf(c)
 \* families "lex" / "opt" (and "keyval" with a key transport) exercise the direction independent implementation -> package only
 ThreeWay == ThreeWayCase(c)
 RoundTrip == Done /\ IsC10 /\ Required /\ C10Class = "MustAccept"
-               => /\ out.ref2pkg.k = "plaintext"
+               => /\ (HasRef(c) => out.ref2pkg.k = "plaintext")
                   /\ (ThreeWay => out.self.k = "plaintext" /\ out.pkg2ref.k = "plaintext")
+\* "the xmlenc package offers": Encrypt is a method of a value; what it encrypts with is what the fields of THAT value say
+\* when it is called - no site reads what the constructor was given
+FieldsGovern == Required => D.CtorCaptured = {}
+\* the element the package writes names the combination its encrypter was configured with (else the case is not an
+\* encryption with that combination at all) ...
+\* (both are read off the state in which the package's Encrypt has just returned its element)
+Encrypted == phase = "self" /\ pc = "FindMethod" /\ Len(frames) = 1
+AnnouncesConfigured ==
+  Encrypted /\ Required /\ IsC10 =>
+    /\ elP.em = c.bc
+    /\ c.kt # "direct" =>
+         LET ek == elP.eks[1] IN
+         /\ ek.em = c.kt /\ ek.ct.payload.len = W3C(c.bc).key
+         /\ (IF c.dm = "none" THEN ek.dm.k = "absent" ELSE ek.dm.k = "known" /\ ek.dm.name = c.dm)
+         /\ (c.kt = "rsa-oaep11" => ek.mgf = c.dm)
+\* ... and the key is wrapped with the parameters the element states
+WrapsAsAnnounced ==
+  Encrypted /\ Required /\ IsC10 /\ Oaep(c.kt) =>
+    LET ek == elP.eks[1] IN
+    /\ ek.ct.hash = (IF ek.dm.k = "known" THEN ek.dm.name ELSE "sha1")
+    /\ ek.ct.mgf = (IF c.kt = "rsa-oaep-mgf1p" \/ ek.mgf = "absent" THEN "sha1" ELSE ek.mgf)
 \* "every key of the right size": the size is the only condition the identifiers put on a key - a cipher constructor of
 \* the required design refuses none
 EveryKey == Required => D.KeyRefusal = {}
@@ -1199,7 +1307,7 @@ Closure(d, x) == /\ Registered(d, x.bc) /\ EncParams(d, x.bc) = DecParams(d, x.b
 RegistryClosure == IsC10 /\ Required => Closure(D, c)
 \* predicted cipher value length of the data element
 CvLen(x) == LET w == W3C(x.bc) IN IF w.mode = "cbc" THEN w.iv + x.plen + PadLen(x.plen, w.block) ELSE 12 + x.plen + 16
-CipherValueLength == Done /\ IsC10 /\ Required => (ThreeWay => elP.len = CvLen(c)) /\ elR.len = CvLen(c)
+CipherValueLength == Done /\ IsC10 /\ Required /\ C10Class = "MustAccept" => (ThreeWay => elP.len = CvLen(c)) /\ (HasRef(c) => elR.len = CvLen(c))
 
 \* ---- C11   (classification per DESIGN 14, evaluated on the element, not on the machine)
 RECURSIVE PathOf(_)
@@ -1281,11 +1389,15 @@ TypeOK == /\ impl \in {"w3c", "code", "fixed"}
           /\ ret.k \in {"none", "bytes", "error", "panic"}
           /\ \A f \in {"self", "pkg2ref", "ref2pkg", "dec"} : out[f].k \in {"none", "plaintext", "wrongtext", "error", "panic"}
           /\ Len(frames) <= 4
+          \* the combination of a C10 case is the one the fields of its encrypter value name
+          /\ (IsC10 => /\ c.kt = CtorAlg(c.enc.ctor)
+                        /\ (c.kt # "direct" => c.bc = EncBc(c.enc) /\ c.dm = EncDm(c.enc))
+                        /\ (c.kt = "direct" => c.enc = NoEnc))
           \* KeyInfo as a sequence of items is the eks / cert of the element in some order, plus references and names
           /\ (~IsC10 => \A e \in {c.el} \cup {c.sibs[i] : i \in 1..Len(c.sibs)} :
                 e.ki = <<>> \/ /\ SelectSeq(e.ki, LAMBDA it : it.k = "ek") = [i \in 1..Len(e.eks) |-> EkIt(i)]
                                /\ (e.cert = "absent" <=> SelectSeq(e.ki, LAMBDA it : it.k = "x509") = <<>>))
-OneOutcome == Done => IF IsC10 THEN /\ out.ref2pkg.k # "none"
+OneOutcome == Done => IF IsC10 THEN /\ (HasRef(c) <=> out.ref2pkg.k # "none")
                                      /\ (ThreeWay <=> out.self.k # "none") /\ (ThreeWay <=> out.pkg2ref.k # "none")
                                 ELSE out.dec.k # "none"
 
